@@ -709,6 +709,52 @@ def _scope(check: Check):
   check.ob('R-SCOPE.set', setter, 'every normal path stores _BACKEND_CHOICE.backend', bool(store_nodes) and not skipping,
            'the setter either stores the requested backend or raises; a path that returns without storing (e.g. for None) leaves the '
            'previous selection in place, so leaving a `with for_each_client_backend(...)` block would not restore the default')
+  # the documented table, decided per case of the argument: None / a backend object -> stored as given; 'debug' | 'jit' | 'pmap' -> a new
+  # backend of that kind
+  from fjsa.rules import cases
+  bp = setter.positional_params[0]
+  WANT = {'debug': 'ForEachClientDebugBackend', 'jit': 'ForEachClientJitBackend', 'pmap': 'ForEachClientPmapBackend'}
+  table_ok = True
+  table = []
+  for case in (None, 'obj', 'debug', 'jit', 'pmap'):
+    def decide(t, case=case):
+      if isinstance(t, ast.BoolOp):
+        rs = [decide(v) for v in t.values]
+        if isinstance(t.op, ast.And):
+          return False if any(r is False for r in rs) else (None if any(r is None for r in rs) else True)
+        return True if any(r is True for r in rs) else (None if any(r is None for r in rs) else False)
+      if isinstance(t, ast.UnaryOp) and isinstance(t.op, ast.Not):
+        r = decide(t.operand)
+        return None if r is None else not r
+      if isinstance(t, ast.Compare) and len(t.ops) == 1 and isinstance(t.left, ast.Name) and t.left.id == bp:
+        c0 = t.comparators[0]
+        if isinstance(t.ops[0], (ast.Is, ast.IsNot)) and isinstance(c0, ast.Constant) and c0.value is None:
+          return (case is None) == isinstance(t.ops[0], ast.Is)
+        if isinstance(t.ops[0], (ast.Eq, ast.NotEq)) and isinstance(c0, ast.Constant) and isinstance(c0.value, str):
+          return (case == c0.value) == isinstance(t.ops[0], ast.Eq)
+        if isinstance(t.ops[0], (ast.In, ast.NotIn)) and isinstance(c0, (ast.Tuple, ast.List, ast.Set)) and all(isinstance(e, ast.Constant) for e in c0.elts):
+          return (case in [e.value for e in c0.elts]) == isinstance(t.ops[0], ast.In)
+      if isinstance(t, ast.Call) and sff.ext(t.func) == 'builtins.isinstance' and len(t.args) == 2 and isinstance(t.args[0], ast.Name) and t.args[0].id == bp:
+        if txt(t.args[1]).endswith('ForEachClientBackend'):
+          return case == 'obj'
+        if txt(t.args[1]) == 'str':
+          return case in WANT
+      return None
+    env, _ = cases.evaluate(setter.node.body, {}, decide)
+    got = None if env is cases.UNKNOWN else next((v for k, v in env.items() if k.endswith('.backend')), None)
+    if got is None:
+      table_ok = None if table_ok else table_ok
+      table.append(f'{case}: ?')
+      continue
+    if case in (None, 'obj'):
+      good = isinstance(got, ast.Name) and got.id == bp
+    else:
+      good = isinstance(got, ast.Call) and txt(got.func).split('.')[-1] == WANT[case]
+    table.append(f'{case}: {txt(got)[:40]}')
+    if not good:
+      table_ok = False
+  check.ob('R-SCOPE.table', setter, "None / object -> as given; 'debug' / 'jit' / 'pmap' -> that backend", table_ok,
+           'the setter stores the backend its argument names: ' + '; '.join(table))
   # thread local
   bc = repo.cls(MOD, 'BackendChoice')
   tl = any(r.kind == 'ext' and r.path == 'threading.local' for r in repo.class_bases(bc))
